@@ -332,6 +332,10 @@ class CFG(object):
                         pos[e] = (b.id, n)
                 if b.tc is not None and b.tc >= 0 and b.tc not in pos:
                     pos[b.tc] = (b.id, len(b.elems))
+            # statements that only appear as terminators (break, continue, goto)
+            for b in self.blocks.values():
+                if b.term is not None and b.term >= 0 and b.term not in pos and b.termk in ('BreakStmt', 'ContinueStmt', 'GotoStmt'):
+                    pos[b.term] = (b.id, len(b.elems))
             self._pos = pos
         return self._pos
 
